@@ -22,7 +22,8 @@
    FULL STATEMENT of the property (not provable in this form, see below):
      for all pools and payload attributes, the block miner.BuildPayload returns is accepted by
      BlockChain.InsertChain and ConsensusAPI.NewPayload with equal roots/bloom/gas/BAL hash.
-   What is proved (..._partial): acceptance by the MODEL importer, i.e. under the assumption
+   What is proved: builder trace = importer trace attempt by attempt, and (..._partial) acceptance
+   by the MODEL importer, i.e. under the assumption
    that builder and importer evaluate the same deterministic per-transaction and per-block
    functions ([pre_check], [exec], [pre_exec], [post_exec], [finalize], ...).  What is missing:
    that the miner's real environment (EVM block context with an explicit coinbase, in-progress
@@ -32,6 +33,7 @@
    C36-bal-size-not-checked-by-builder (a constraint the importer checks and the model's
    [validate] does not contain). *)
 From GV Require Import Lib.Tactics Gas.GoArith Gas.Pool_gen Pool.Ordering EVM.Build EVM.BuildProofs.
+From Coq Require Import Sorted.
 From GV Require Gas.FeesImpl.
 
 (* header_fields_are_recomputed_values: the importer's re-execution of the built block succeeds
@@ -138,26 +140,102 @@ Theorem C36_build_terminates :
 Proof. exact build_terminates. Qed.
 Print Assumptions C36_build_terminates.
 
-(* included_order_valid (partial).  FULL: per account, the INCLUDED transactions are in strictly
-   increasing nonce order with no gap relative to the iterator's list.  PROVED: the attempts the
-   loop makes on each iterator ([trace_of false] plain / [trace_of true] blob) are a run of the
-   C43 iterator, so when a transaction is attempted exactly its predecessors in the sender's
-   pending list were attempted before it, in list order, and nothing of a sender follows a Pop
-   (so every attempt of a sender but the last was included or skipped as nonce-too-low).
-   MISSING: the (bookkeeping) lemma that [e_txs] is the sub-list of successful attempts, and
-   the corollary for sorted nonces. *)
-Theorem C36_included_order_valid_partial :
+(* included_order_valid.  One commitTransactions call over iterators built from the pending maps
+   [pp] (plain) and [pb] (blob); [tr] is its trace of attempts:
+   - the transactions the call adds to the block are exactly the successful attempts, in attempt
+     order ([included tr]);
+   - Shift is chosen exactly after a success or a nonce-too-low, Pop otherwise;
+   - per iterator [isb] and sender [a] ([att] = the attempts on a's transactions, [l] = a's pending
+     list): the attempted transactions are a PREFIX of l in list order, and every attempt but the
+     last is followed by a Shift (C43: per_account_prefix, pop_drops_account on the run the loop
+     performs);
+   - hence, if none of a's attempts is refused as nonce-too-low (the pool's account nonce is the
+     state's), a's included transactions are a prefix of l (all attempts or all but the last):
+     no gap, no reordering; with the pool's consecutive nonces n0, n0+1, ... in l they carry
+     exactly n0, n0+1, ..., consecutive from the state nonce;
+   - in general (nonce-too-low attempts are skipped over) they are a sub-list of that prefix:
+     strictly increasing nonces in l give strictly increasing included nonces. *)
+Theorem C36_included_order_valid :
   forall (S Rc : Type) meta pre_check exec cfg bf sigs env pp pb plain blob env' p' b' tr st,
   NoDup (map fst pp) -> NoDup (map fst pb) ->
   new_by_price_and_nonce pp bf = Ok plain -> new_by_price_and_nonce pb bf = Ok blob ->
   commit_transactions S Rc meta pre_check exec cfg sigs env plain blob = Ok (env', p', b', tr, st) ->
-  forall isb : bool, let pend := if isb then pb else pp in
-  forall tr1 it o tr2, trace_of isb tr = tr1 ++ (it, o) :: tr2 ->
-    nth_error (txs_of (it_from it) pend) (length (proj (it_from it) tr1)) = Some (it_tx it) /\
-    firstn (length (proj (it_from it) tr1)) (txs_of (it_from it) pend) = proj (it_from it) tr1 /\
-    (o = OPop -> proj (it_from it) tr2 = []).
-Proof. exact included_order_valid. Qed.
-Print Assumptions C36_included_order_valid_partial.
+  e_txs env' = e_txs env ++ included tr /\
+  (forall x, In x tr ->
+     (at_op x = OShift <-> at_why x = WApplied None \/ at_why x = WApplied (Some ENonceTooLow))) /\
+  forall (isb : bool) a,
+    let l := txs_of a (if isb then pb else pp) in
+    let att := attempts_of isb a tr in
+    map (fun x => it_tx (at_item x)) att = firstn (length att) l /\
+    (forall pre x post, att = pre ++ x :: post -> post <> [] -> at_op x = OShift) /\
+    ((forall x, In x att -> at_why x <> WApplied (Some ENonceTooLow)) ->
+     exists j, included_of isb a tr = firstn j l /\ (j = length att \/ Datatypes.S j = length att)) /\
+    (forall n0, (forall i t, nth_error l i = Some t -> tx_nonce t = n0 + N.of_nat i)%N ->
+       (forall x, In x att -> at_why x <> WApplied (Some ENonceTooLow)) ->
+       forall i t, nth_error (included_of isb a tr) i = Some t -> tx_nonce t = (n0 + N.of_nat i)%N) /\
+    (StronglySorted N.lt (map tx_nonce l) ->
+     StronglySorted N.lt (map tx_nonce (included_of isb a tr))).
+Proof. exact included_order_valid_full. Qed.
+Print Assumptions C36_included_order_valid.
+
+(* builder_trace_is_importer_trace: the per-transaction content of "the importer accepts".
+   There is a history [h] of the builder's run - the environment BEFORE each attempt of the two
+   commitTransactions calls, threaded by [chain] from the initial environment to the final one -
+   whose attempts are the traces, the block's transactions are the included attempts, and every
+   entry satisfies [entry_ok] (EVM/Build.v): before each attempt the importer's loop over the
+   transactions included so far has reached exactly the builder's gas pool, state and receipts
+   (and blob-gas counter / header gas used agree with them); for an included attempt the single
+   evaluation [apply_message pool state tx] the builder performs IS the importer's evaluation at
+   that position - same arguments, hence same pool, state, receipt and gas.  This is an induction
+   over the attempts; it holds for ANY execution oracle [pre_check]/[exec], i.e. whenever the
+   per-transaction function is a deterministic function of (state, gas pool, tx, block config).
+   TRUSTED GAP (not provable here, decided only by the round-trip correspondence on the
+   implementation): that the real miner's environment (EVM block context with explicit coinbase,
+   in-progress header, prefetcher, construction-time access list) and the real importer's
+   (StateProcessor sequential or BAL-parallel, header-derived context) compute that same
+   per-transaction function and the same block-level steps. *)
+Theorem C36_builder_trace_is_importer_trace :
+  forall (S Rc H Q : Type) meta pre_check exec cfg pre_exec post_exec finalize
+         (root_of bal_hash_of : S -> H) (receipts_root bloom_of : list Rc -> H) (requests_hash : Q -> H)
+         ccfg parent_hdr parent_cancun head_time,
+  well_formed meta exec cfg ->
+  forall parent sigs1 sigs2 prio size0 pp pb b env tr1 tr2,
+  generate_work S Rc H Q meta pre_check exec cfg pre_exec post_exec finalize root_of bal_hash_of
+                receipts_root bloom_of requests_hash ccfg parent_hdr parent_cancun head_time
+                sigs1 sigs2 prio parent size0 pp pb
+    = GwBlock S Rc H b env tr1 tr2 ->
+  exists h, map snd h = tr1 ++ tr2 /\
+            chain S Rc meta pre_check exec cfg (make_env S Rc cfg pre_exec parent size0) h env /\
+            b_txs H b = included (tr1 ++ tr2) /\
+            Forall (entry_ok S Rc meta pre_check exec cfg pre_exec parent) h.
+Proof. exact builder_trace_is_importer_trace. Qed.
+Print Assumptions C36_builder_trace_is_importer_trace.
+
+(* importer_replays_each_included_tx: the same, position by position.  For EVERY position of the
+   built block's transaction list ([pre] before it, [t] at it): the importer, having processed
+   [pre], is in exactly the gas pool / state / receipts (and blob-gas counter) of the environment
+   [e] from which the builder attempted [t], and the evaluation of the per-transaction function at
+   this position is the very evaluation the builder made - same resulting pool, state, receipt *)
+Theorem C36_importer_replays_each_included_tx :
+  forall (S Rc H Q : Type) meta pre_check exec cfg pre_exec post_exec finalize
+         (root_of bal_hash_of : S -> H) (receipts_root bloom_of : list Rc -> H) (requests_hash : Q -> H)
+         ccfg parent_hdr parent_cancun head_time,
+  well_formed meta exec cfg ->
+  forall parent sigs1 sigs2 prio size0 pp pb b env tr1 tr2,
+  generate_work S Rc H Q meta pre_check exec cfg pre_exec post_exec finalize root_of bal_hash_of
+                receipts_root bloom_of requests_hash ccfg parent_hdr parent_cancun head_time
+                sigs1 sigs2 prio parent size0 pp pb
+    = GwBlock S Rc H b env tr1 tr2 ->
+  forall pre t post, b_txs H b = pre ++ t :: post ->
+  exists (e : benv S Rc) gp' s' rc,
+    e_txs e = pre /\ e_blobgasused e = sum_blobgas meta pre /\
+    process_txs S Rc meta pre_check exec cfg (NewGasPool (c_gaslimit cfg)) (pre_exec parent) [] pre
+      = Some (e_pool e, e_state e, e_receipts e) /\
+    apply_message S Rc meta pre_check exec cfg (e_pool e) (e_state e) t = (gp', inl (s', rc)) /\
+    process_txs S Rc meta pre_check exec cfg (NewGasPool (c_gaslimit cfg)) (pre_exec parent) [] (pre ++ [t])
+      = Some (gp', s', e_receipts e ++ [rc]).
+Proof. exact importer_replays_each_included_tx. Qed.
+Print Assumptions C36_importer_replays_each_included_tx.
 
 (* non-vacuity: a legacy block of gas limit 70000 over three senders; transaction 12 is refused
    as nonce-too-low (Shift, the sender goes on), 21 with another error (Pop, 22 is never tried),
